@@ -122,6 +122,126 @@ func esdsLong(form string, asc []byte) []byte {
 	return fb("esds", 0, 0, u8(3), sz(len(es)), es)
 }
 
+// descSize writes the size of a descriptor (ISO/IEC 14496-1 8.3.3: base-128
+// digits, most significant first, bit 7 = "more digits follow") in form "min"
+// (shortest), "pad1" (one leading 0x80 digit more than needed, at most four) or
+// "four" (always four digits).
+func descSize(form string, n int) []byte {
+	var digits []byte
+	for v := n; ; v >>= 7 {
+		digits = append([]byte{byte(v) & 0x7f}, digits...)
+		if v>>7 == 0 {
+			break
+		}
+	}
+	want := len(digits)
+	switch form {
+	case "pad1":
+		if want < 4 {
+			want++
+		}
+	case "four":
+		want = 4
+	}
+	for len(digits) < want {
+		digits = append([]byte{0}, digits...)
+	}
+	for i := 0; i < len(digits)-1; i++ {
+		digits[i] |= 0x80
+	}
+	return digits
+}
+
+// esFlags describes the optional part of an ES_Descriptor (14496-1 7.2.6.5):
+// bits of flags: 0x80 streamDependenceFlag (dependsOn_ES_ID follows), 0x40
+// URL_Flag (URLlength + URLstring follow), 0x20 OCRstreamFlag (OCR_ES_Id
+// follows), low five bits streamPriority.
+type esFlags struct {
+	flags     byte
+	dependsOn uint16
+	url       string
+	ocr       uint16
+}
+
+// esdsFlex builds an esds from the syntax of 14496-1: ES_Descriptor with the
+// optional fields of fl, DecoderConfigDescriptor with a DecoderSpecificInfo of
+// len(asc) bytes, SLConfigDescriptor (predefined 2). It returns the box and the
+// payload sizes of the three nested descriptors (DecoderSpecificInfo,
+// DecoderConfigDescriptor, ES_Descriptor).
+func esdsFlex(form string, fl esFlags, asc []byte) (box []byte, payload [3]int) {
+	dsi := cat(u8(5), descSize(form, len(asc)), asc)
+	dcdBody := cat(u8(0x40, 0x15), u24(0x000300), u32(128000), u32(96000), dsi)
+	dcd := cat(u8(4), descSize(form, len(dcdBody)), dcdBody)
+	sl := cat(u8(6), descSize(form, 1), u8(2))
+	es := cat(u16(1), u8(fl.flags))
+	if fl.flags&0x80 != 0 {
+		es = cat(es, u16(fl.dependsOn))
+	}
+	if fl.flags&0x40 != 0 {
+		es = cat(es, u8(byte(len(fl.url))), []byte(fl.url))
+	}
+	if fl.flags&0x20 != 0 {
+		es = cat(es, u16(fl.ocr))
+	}
+	es = cat(es, dcd, sl)
+	return fb("esds", 0, 0, u8(3), descSize(form, len(es)), es), [3]int{len(asc), len(dcdBody), len(es)}
+}
+
+// esdsAt builds an esds in which the payload of the descriptor at level (0
+// DecoderSpecificInfo, 1 DecoderConfigDescriptor, 2 ES_Descriptor) is exactly
+// target bytes; nil if no DecoderSpecificInfo length gives that.
+func esdsAt(form string, fl esFlags, level, target int) []byte {
+	for n := target; n >= 0 && n > target-64; n-- {
+		b, p := esdsFlex(form, fl, ascOf(n))
+		if p[level] == target {
+			return b
+		}
+	}
+	return nil
+}
+
+// dec3Box builds an EC3SpecificBox (ETSI TS 102 366 F.6) bit by bit: data_rate(13) num_ind_sub(3), then per
+// independent substream fscod(2) bsid(5) reserved(1) asvc(1) bsmod(3) acmod(3) lfeon(1) reserved(3) num_dep_sub(4)
+// and chan_loc(9) if num_dep_sub > 0, else reserved(1). deps[i] is num_dep_sub of substream i.
+func dec3Box(dataRate uint, deps []int, trailing []byte) []byte {
+	var acc uint64
+	nbits := 0
+	var out []byte
+	put := func(v uint, n int) {
+		acc = acc<<uint(n) | uint64(v)&(1<<uint(n)-1)
+		nbits += n
+		for nbits >= 8 {
+			out = append(out, byte(acc>>uint(nbits-8)))
+			nbits -= 8
+		}
+	}
+	put(dataRate, 13)
+	put(uint(len(deps)-1), 3)
+	for i, d := range deps {
+		put(uint(i)%3, 2)   // fscod
+		put(16, 5)          // bsid
+		put(0, 1)           // reserved
+		put(uint(i)&1, 1)   // asvc
+		put(uint(i)%8, 3)   // bsmod
+		put(uint(7-i)%8, 3) // acmod
+		put(uint(i+1)&1, 1) // lfeon
+		put(0, 3)           // reserved
+		put(uint(d), 4)     // num_dep_sub
+		if d > 0 {
+			put(uint(0x101>>uint(i))&0x1ff, 9) // chan_loc
+		} else {
+			put(0, 1)
+		}
+	}
+	return bx("dec3", out, trailing)
+}
+
+// ascOf is a DecoderSpecificInfo payload of n bytes that starts like an
+// AudioSpecificConfig (AAC-LC, 48 kHz, stereo).
+func ascOf(n int) []byte {
+	return cat([]byte{0x11, 0x90}, seq(n, 0x21))[:n]
+}
+
 func dataBox(text string) []byte { return bx("data", u32(1), u32(0), []byte(text)) }
 
 var kid1 = seq(16, 0x10)
@@ -392,6 +512,55 @@ func builtBoxes() []Seed {
 		es3 := cat(u16(1), u8(0), u8(4, byte(len(dcd))), dcd, sl, lang)
 		add("esds", "other-after-slconfig", fb("esds", 0, 0, u8(3, byte(len(es3))), es3))
 	}
+	// every nested descriptor (DecoderSpecificInfo, DecoderConfigDescriptor, ES_Descriptor) with a payload of
+	// exactly 2^7-2 .. 2^7+1 and 2^14-2 .. 2^14+1 bytes: the values around which the base-128 size field changes
+	// length, in the shortest form, with one padding digit, and with four digits
+	for level, lname := range []string{"dsi", "dcd", "es"} {
+		for _, target := range []int{126, 127, 128, 129, 16382, 16383, 16384, 16385} {
+			for _, form := range []string{"min", "pad1", "four"} {
+				if target > 1000 && form != "min" && (level != 2 || target == 16382 || target == 16385) {
+					continue // the long ones in padded forms only for the outermost descriptor at the boundary itself
+				}
+				if b := esdsAt(form, esFlags{}, level, target); b != nil {
+					add("esds", fmt.Sprintf("%s-payload%d-%s-sizes", lname, target, form), b)
+				}
+			}
+		}
+	}
+	// the flag lattice of the ES_Descriptor: streamDependenceFlag, URL_Flag, OCRstreamFlag in all 8 combinations, each
+	// with its dependent field present (URL strings of several lengths, the empty one included), with and without
+	// streamPriority bits, in one-digit and four-digit size forms
+	for f := 0; f < 8; f++ {
+		for vi, url := range []string{"http://example.com/es/1", "", "u"} {
+			if f&2 == 0 && vi > 0 {
+				continue
+			}
+			fl := esFlags{flags: byte(f) << 5, dependsOn: 0x0a0b, url: url, ocr: 0x0102}
+			if vi == 0 && f%3 == 1 {
+				fl.flags |= 0x1f
+			} else if vi == 0 && f%3 == 2 {
+				fl.flags |= 0x05
+			}
+			for _, form := range []string{"min", "four"} {
+				b, _ := esdsFlex(form, fl, asc)
+				add("esds", fmt.Sprintf("es-flags%02x-url%d-%s-sizes", fl.flags, len(url), form), b)
+			}
+			// the same with the ES_Descriptor payload at the one-digit limit
+			if b := esdsAt("min", fl, 2, 127); b != nil && vi == 0 {
+				add("esds", fmt.Sprintf("es-flags%02x-payload127", fl.flags), b)
+			}
+		}
+	}
+	{
+		// flagged ES_Descriptors where they live: mp4a inside stsd
+		ocr, _ := esdsFlex("min", esFlags{flags: 0x20, ocr: 0x0102}, asc)
+		depOcr, _ := esdsFlex("four", esFlags{flags: 0xa3, dependsOn: 7, ocr: 9}, asc)
+		all, _ := esdsFlex("min", esFlags{flags: 0xe0, dependsOn: 2, url: "urn:x", ocr: 3}, asc)
+		add("stsd", "mp4a-esds-ocr", fb("stsd", 0, 0, u32(1), audioEntry("mp4a", 2, 16, 48000, ocr)))
+		add("stsd", "mp4a-esds-dep+ocr,mp4a-esds-all", fb("stsd", 0, 0, u32(2), audioEntry("mp4a", 2, 16, 48000, depOcr), audioEntry("mp4a", 1, 16, 44100, all, bx("btrt", u32(0), u32(128000), u32(96000)))))
+		es127 := esdsAt("min", esFlags{}, 2, 127)
+		add("mp4a", "esds-es-payload127", audioEntry("mp4a", 2, 16, 48000, es127))
+	}
 	add("mp4a", "esds", audioEntry("mp4a", 2, 16, 48000, esds(4, asc), bx("btrt", u32(0), u32(128000), u32(96000))))
 	dac3 := bx("dac3", u8(0x10, 0x3d, 0x60))
 	dec3a := bx("dec3", u8(0x06, 0x00, 0x20, 0x0f, 0x00))
@@ -400,6 +569,16 @@ func builtBoxes() []Seed {
 	add("dec3", "nodep", dec3a)
 	add("dec3", "dep", dec3b)
 	add("dec3", "2sub", bx("dec3", u8(0x06, 0x01, 0x20, 0x0f, 0x00, 0x20, 0x05, 0x00)))
+	// 1..8 independent substreams, each with or without dependent substreams (3 or 4 bytes per substream)
+	for _, deps := range [][]int{{0, 0, 0}, {1, 0}, {0, 2}, {1, 1, 1}, {0, 1, 0, 2}, {0, 0, 0, 0, 0, 0, 0, 0}, {1, 0, 3, 0, 1, 0, 15, 1}} {
+		name := ""
+		for _, d := range deps {
+			name += fmt.Sprintf("%x", d)
+		}
+		add("dec3", "deps-"+name, dec3Box(640, deps, nil))
+	}
+	add("dec3", "deps-01+trailing", dec3Box(768, []int{0, 1}, u8(0x01, 0x02)))
+	add("ec-3", "3sub", audioEntry("ec-3", 6, 16, 48000, dec3Box(1024, []int{0, 1, 0}, nil)))
 	add("ac-3", "", audioEntry("ac-3", 6, 16, 48000, dac3))
 	add("ec-3", "", audioEntry("ec-3", 6, 16, 48000, dec3a, bx("btrt", u32(0), u32(640000), u32(448000))))
 	add("enca", "sinf", audioEntry("enca", 2, 16, 44100, esds(1, asc), bx("sinf", bx("frma", []byte("mp4a")), fb("schm", 0, 0, []byte("cenc"), u32(0x00010000)), bx("schi", fb("tenc", 0, 0, u8(0, 0, 1, 8), kid1)))))
